@@ -130,4 +130,69 @@ Compound(Body) ==
            a \in Body \ {<<>>}, x \in {1, 9}, h \in HandlerB, f \in ElseB}
 C1 == Compound(B0)
 Progs1 == {p \in {<<c>> : c \in C1} \cup {<<Mark, c, Mark>> : c \in C1} : ValidBlock(p, FALSE)}
+
+(***************************************************************************)
+(* Coverage exclusions (C08).  A marker (`# pragma: no cover` /            *)
+(* `# pynguin: no cover`) sits on a statement line (its path) or on a       *)
+(* clause line: <<p, 2, 0>> the `else:` of the statement at p, <<p, 3, 0>>  *)
+(* its `except` line, <<p, 4, 0>> its `finally:` line.                      *)
+(*  - a marked simple statement is excluded;                                *)
+(*  - a marked compound header excludes the header and the branch it heads  *)
+(*    (then-body, loop body, try body);                                     *)
+(*  - a marked clause line excludes that clause (else / handler / finally). *)
+(* LineGoals = statement lines outside excluded code; a deciding line is a  *)
+(* PredGoal when it is a line goal and (for if/while/for) its else clause   *)
+(* is not marked.                                                           *)
+(***************************************************************************)
+RECURSIVE AllOf(_, _, _), LinesOf(_, _), ExclOf(_, _, _, _), ExclStmt(_, _, _), PredsOf(_, _, _, _), PredStmt(_, _, _)
+
+AllOf(blk, p, tag) == UNION {LinesOf(blk[i], p \o <<tag, i>>) : i \in DOMAIN blk}
+LinesOf(s, p) ==
+  CASE s.t = "if" -> {p} \cup AllOf(s.a, p, 1) \cup AllOf(s.b, p, 2)
+    [] s.t \in {"while", "for"} -> {p} \cup AllOf(s.a, p, 1) \cup AllOf(s.e, p, 2)
+    [] s.t = "try" -> {p} \cup AllOf(s.a, p, 1) \cup (IF s.x # 0 THEN {p \o <<3, 0>>} ELSE {})
+                      \cup AllOf(s.h, p, 3) \cup AllOf(s.f, p, 4)
+    [] OTHER -> {p}
+
+ExclOf(blk, p, tag, M) == UNION {ExclStmt(blk[i], p \o <<tag, i>>, M) : i \in DOMAIN blk}
+ExclStmt(s, p, M) ==
+  CASE s.t = "if" ->
+         (IF p \in M THEN {p} \cup AllOf(s.a, p, 1) ELSE ExclOf(s.a, p, 1, M))
+         \cup (IF (p \o <<2, 0>>) \in M THEN AllOf(s.b, p, 2) ELSE ExclOf(s.b, p, 2, M))
+    [] s.t \in {"while", "for"} ->
+         (IF p \in M THEN {p} \cup AllOf(s.a, p, 1) ELSE ExclOf(s.a, p, 1, M))
+         \cup (IF (p \o <<2, 0>>) \in M THEN AllOf(s.e, p, 2) ELSE ExclOf(s.e, p, 2, M))
+    [] s.t = "try" ->
+         (IF p \in M THEN {p} \cup AllOf(s.a, p, 1) ELSE ExclOf(s.a, p, 1, M))
+         \cup (IF (p \o <<3, 0>>) \in M THEN {p \o <<3, 0>>} \cup AllOf(s.h, p, 3) ELSE ExclOf(s.h, p, 3, M))
+         \cup (IF (p \o <<4, 0>>) \in M THEN AllOf(s.f, p, 4) ELSE ExclOf(s.f, p, 4, M))
+    [] OTHER -> IF p \in M THEN {p} ELSE {}
+
+(* deciding lines that remain predicates *)
+PredsOf(blk, p, tag, M) == UNION {PredStmt(blk[i], p \o <<tag, i>>, M) : i \in DOMAIN blk}
+PredStmt(s, p, M) ==
+  CASE s.t = "if" -> (IF (p \o <<2, 0>>) \in M THEN {} ELSE {p}) \cup PredsOf(s.a, p, 1, M) \cup PredsOf(s.b, p, 2, M)
+    [] s.t \in {"while", "for"} ->
+         (IF (p \o <<2, 0>>) \in M THEN {} ELSE {p}) \cup PredsOf(s.a, p, 1, M) \cup PredsOf(s.e, p, 2, M)
+    [] s.t = "try" -> (IF s.x # 0 THEN {p \o <<3, 0>>} ELSE {}) \cup PredsOf(s.a, p, 1, M)
+                      \cup PredsOf(s.h, p, 3, M) \cup PredsOf(s.f, p, 4, M)
+    [] OTHER -> {}
+
+(* where a marker can be placed *)
+RECURSIVE SitesOf(_, _, _), SitesStmt(_, _)
+SitesOf(blk, p, tag) == UNION {SitesStmt(blk[i], p \o <<tag, i>>) : i \in DOMAIN blk}
+SitesStmt(s, p) ==
+  CASE s.t = "if" -> {p} \cup (IF s.b # <<>> THEN {p \o <<2, 0>>} ELSE {}) \cup SitesOf(s.a, p, 1) \cup SitesOf(s.b, p, 2)
+    [] s.t \in {"while", "for"} ->
+         {p} \cup (IF s.e # <<>> THEN {p \o <<2, 0>>} ELSE {}) \cup SitesOf(s.a, p, 1) \cup SitesOf(s.e, p, 2)
+    [] s.t = "try" -> {p} \cup (IF s.x # 0 THEN {p \o <<3, 0>>} ELSE {}) \cup (IF s.f # <<>> THEN {p \o <<4, 0>>} ELSE {})
+                      \cup SitesOf(s.a, p, 1) \cup SitesOf(s.h, p, 3) \cup SitesOf(s.f, p, 4)
+    [] OTHER -> {p}
+
+EndPath(prog) == <<0, Len(prog) + 1>>
+ProgLines(prog) == AllOf(prog, <<>>, 0) \cup {EndPath(prog)}
+Excluded(prog, M) == ExclOf(prog, <<>>, 0, M) \cup (IF EndPath(prog) \in M THEN {EndPath(prog)} ELSE {})
+LineGoals(prog, M) == ProgLines(prog) \ Excluded(prog, M)
+PredGoals(prog, M) == PredsOf(prog, <<>>, 0, M) \cap LineGoals(prog, M)
+Sites(prog) == SitesOf(prog, <<>>, 0) \cup {EndPath(prog)}
 =============================================================================
